@@ -52,6 +52,9 @@ TEXT = {
     "C17": dict(technique="property-based testing (rapid): independent implementation of the documented numbering rule + distinct-token witness per group",
                 text="Random mixes of unnamed, named, explicitly numbered (sparse), duplicate-named, nested and non-capturing groups with (?n)/(?-n) x {default, MaintainCaptureOrder, ECMAScript, RE2 (?P<>)}: predicted numbers/names vs GetGroupNumbers/Names, both lookups, Groups() order and names, GroupByNumber/Name, backreferences by number and name, $n/${name} replacements - each observed through the distinct token the group captures.",
                 note="Explicit numbers are not generated under MaintainCaptureOrder/ECMAScript, duplicates not under ECMAScript (outside the documented rule).", ref="§6 C17"),
+    "C06": dict(technique="property-based testing (rapid): differential against Go's regexp on the common RE2 syntax, all 22 Matcher methods, reflect.DeepEqual",
+                text="F-re2 ASTs (no quantified nullable sub-pattern) compiled by regexp.Compile and compat.Compile(p, RE2) x ASCII / multi-byte / invalid-UTF-8 inputs x n in {-1,0,1,2,3,100}: every method of compat.Matcher must return exactly what Go returns (nil-ness, byte offsets, -1 pairs, empty-match rule).",
+                note="Go's regexp is the trusted reference. Two recorded dialect gaps (Unicode \\b, named-group numbering) are excluded by narrow predicates and reported as KNOWN-FINDING; case-folded negated POSIX classes / categories are outside the common syntax.", ref="§6 C06"),
 }
 
 PENDING = "check not built yet in this session (work in progress; see DESIGN.md section 6 for the planned generated-input check)"
